@@ -28,7 +28,7 @@ int vprop_fork = 1;
 int vprop_cpu_limit_s = 30;
 const char *vprop_class_names[V_NCLASS] = {
   "sets_ge_2", "sets_4", "rules_for_sse", "rules_for_mmx", "flagged_rule_sets", "later_rule_overrides_earlier", "instruction_without_rule",
-  "native_with_extension_rules", "fallback_because_no_rule", "prefix_or_extension_names", "rule_sets_at_capacity", "builtin_rule_overridden", NULL
+  "native_with_extension_rules", "fallback_because_no_rule", "prefix_or_extension_names", "rule_sets_at_capacity", "builtin_rule_overridden", "handle_kept_across_later_registrations", NULL
 };
 
 void vprop_init (int argc, char **argv) { (void) argc; (void) argv; orc_init (); }
@@ -85,6 +85,7 @@ static void ext_rule (OrcCompiler *p, void *user, OrcInstruction *insn)
 static OrcStaticOpcode set_ops[MAXSETS][8];
 static int set_n[MAXSETS], set_x[MAXSETS][8], n_sets;
 static char set_prefix[MAXSETS][8];
+static OrcOpcodeSet *set_handle[MAXSETS];
 typedef struct { int set, target; unsigned req; int has[8]; int id[8]; } MRuleSet;
 static MRuleSet mrs[40]; static int n_mrs;
 static int override_on; static unsigned override_req;
@@ -221,6 +222,7 @@ void vprop_case (VChoices *c, VResult *r)
     snprintf (set_prefix[s], sizeof set_prefix[s], "ext%d", s);
     v_stage (r, "register opcode set %d", s);
     orc_opcode_register_static (set_ops[s], set_prefix[s]);
+    set_handle[s] = orc_opcode_set_get (set_prefix[s]);       /* an application may keep this handle while it registers further sets */
     v_desc (r, "set %s:", set_prefix[s]);
     for (k = 0; k < set_n[s]; k++) v_desc (r, " %s", xnames[set_x[s][k]]);
     v_desc (r, "\n");
@@ -233,7 +235,8 @@ void vprop_case (VChoices *c, VResult *r)
   n_mrs = 0; n_rule_users = 0;
   npr = (int) vc_pick (c, 9);
   for (k = 0; k < npr; k++) {
-    int target = (int) vc_pick (c, 2), set = (int) vc_pick (c, (uint32_t) n_sets), j, any = 0;
+    uint32_t traw = vc_u32 (c);
+    int target = (int) (traw % 2), early_handle = (traw / 2) % 2 == 1, set = (int) vc_pick (c, (uint32_t) n_sets), j, any = 0;
     static const unsigned sse_req[4] = { 0, ORC_TARGET_SSE_SSE3, ORC_TARGET_SSE_SSSE3, ORC_TARGET_SSE_SSE4_1 };
     static const unsigned mmx_req[2] = { 0, ORC_TARGET_MMX_MMXEXT };
     unsigned req = target == 0 ? (ORC_TARGET_SSE_SSE2 | sse_req[vc_pick (c, 4)]) : (ORC_TARGET_MMX_MMX | mmx_req[vc_pick (c, 2)]);
@@ -246,7 +249,9 @@ void vprop_case (VChoices *c, VResult *r)
     memset (m, 0, sizeof *m);
     m->set = set; m->target = target; m->req = req;
     v_stage (r, "register rule set %d", k);
-    rs = orc_rule_set_new (orc_opcode_set_get (set_prefix[set]), target == 0 ? tsse : tmmx, req);
+    /* the handle is looked up now, or is the one obtained right after the set was registered (before later sets existed) */
+    rs = orc_rule_set_new (early_handle ? set_handle[set] : orc_opcode_set_get (set_prefix[set]), target == 0 ? tsse : tmmx, req);
+    if (early_handle && set < n_sets - 1) r->classes |= 1u << 12;
     v_desc (r, "rule set %d: %s for %s, required flags 0x%x, rules for:", k, set_prefix[set], target == 0 ? "sse" : "mmx", req);
     for (j = 0; j < set_n[set]; j++) {
       if (vc_pick (c, 4) == 0 && any) continue;          /* partial coverage */
